@@ -52,3 +52,13 @@ silent("C33", "default-mixed-wire-check-moved-directly-after-deferral",
        [(_DM, "        # Defer first since it adds wires to the device\n        compile_pipeline.add_transform(qp.defer_measurements, allow_postselect=False)\n",
               "        # Defer first since it adds wires to the device\n        compile_pipeline.add_transform(qp.defer_measurements, allow_postselect=False)\n        compile_pipeline.add_transform(validate_device_wires, self.wires, name=self.name)\n"),
         (_DM, "        # Add the validate section\n        compile_pipeline.add_transform(validate_device_wires, self.wires, name=self.name)\n", "        # Add the validate section\n")])
+
+# --- R-C33-rebuild
+_PRE = "pennylane/devices/preprocess.py"
+fire("C33", "snapshot-rebuilt-without-its-shots-override",
+     (_PRE, "                new_ops[i] = Snapshot(\n                    measurement=new_mp, tag=op.tag, shots=op.hyperparameters[\"shots\"]\n                )",
+            "                new_ops[i] = Snapshot(measurement=new_mp, tag=op.tag)"),
+     "R-C33-rebuild", "validate_device_wires")
+silent("C33", "snapshot-rebuilt-positionally",
+       [(_PRE, "                new_ops[i] = Snapshot(\n                    measurement=new_mp, tag=op.tag, shots=op.hyperparameters[\"shots\"]\n                )",
+               "                new_ops[i] = Snapshot(op.tag, new_mp, op.hyperparameters[\"shots\"])")])
